@@ -204,7 +204,7 @@ class NDOptionBase (packet_base):
       raise TruncatedException()
     t,l = struct.unpack_from("BB", raw, offset)
     if l == 0:
-      raise RuntimeError("Zero-length NDP option")
+      raise TruncatedException("Zero-length NDP option")
 
     offset += 2
     length_bytes = l * 8 - 2
@@ -215,7 +215,7 @@ class NDOptionBase (packet_base):
     if c is None:
       c = NDOptionGeneric
     if c.LENGTH is not None and c.LENGTH != length_bytes:
-      raise RuntimeError("Bad length for NDP option")
+      raise TruncatedException("Bad length for NDP option")
 
     new_off,o = c._unpack_new(raw, offset, t, length_bytes, prev=prev)
 
